@@ -184,3 +184,91 @@ pub fn record(args: &Args) {
     }
     println!("{}", json!({"events": events, "pops": pops_total, "failed": failed}));
 }
+
+/// MC_History: step ONE real strategy object through a behaviour of the specification (evaluate,
+/// truncate in place, clone, re-import) and compare every observation with the exact one
+pub fn replay_history(args: &Args) {
+    let cases = util::read_ndjson(args.get("cases"));
+    let exps = util::read_ndjson(args.get("exp"));
+    let mut out = Out::create(args.get("out"));
+    let by_id: std::collections::HashMap<i64, &Value> = cases.iter().map(|c| (c["id"].as_i64().unwrap(), c)).collect();
+    let thresholds = [0.25, 0.5, 0.6];
+    for (n, row) in exps.iter().enumerate() {
+        let b = &row["exp"];
+        let Some(case) = by_id.get(&b["id"].as_i64().unwrap()) else { continue };
+        let t: Tree = serde_json::from_value(case["tree"].clone()).unwrap();
+        let mut pj = case["prof"].clone();
+        for side in pj.as_array_mut().unwrap().iter_mut() {
+            if side.as_array().map_or(false, |a| a.is_empty()) {
+                *side = json!({});
+            }
+        }
+        let prof: Profile = serde_json::from_value(pj).unwrap();
+        let hist = b["hist"].as_array().unwrap().clone();
+        let (t2, hist2) = (t.clone(), hist.clone());
+        let res = util::catch(move || {
+            let game = tree::build(&t2).map_err(|e| format!("from_root: {e:?}"))?;
+            let mut strat = game.from_named(tree::named(&t2, &prof)).map_err(|e| format!("from_named: {e:?}"))?;
+            let mut seen: Vec<Option<[f64; 4]>> = Vec::new();
+            for step in hist2.iter() {
+                match step["op"].as_str().unwrap() {
+                    "eval" => {
+                        let i = strat.get_info();
+                        seen.push(Some([i.player_utility(PlayerNum::One), i.player_regret(PlayerNum::One), i.player_regret(PlayerNum::Two), i.regret()]));
+                    }
+                    "t1" => {
+                        strat.truncate(thresholds[0]);
+                        seen.push(None);
+                    }
+                    "t2" => {
+                        strat.truncate(thresholds[1]);
+                        seen.push(None);
+                    }
+                    "t3" => {
+                        strat.truncate(thresholds[2]);
+                        seen.push(None);
+                    }
+                    "clone" => {
+                        strat = strat.clone();
+                        seen.push(None);
+                    }
+                    _ => {
+                        let [one, two] = strat.as_named();
+                        let conv = |it: &mut dyn Iterator<Item = (String, Vec<(String, f64)>)>| -> Vec<(String, Vec<(String, f64)>)> { it.collect() };
+                        let a = conv(&mut one.map(|(i, acts)| (i.clone(), acts.map(|(x, p)| (x.clone(), p)).collect())));
+                        let b = conv(&mut two.map(|(i, acts)| (i.clone(), acts.map(|(x, p)| (x.clone(), p)).collect())));
+                        strat = game.from_named([a, b]).map_err(|e| format!("re-import: {e:?}"))?;
+                        seen.push(None);
+                    }
+                }
+            }
+            Ok::<_, String>(seen)
+        })
+        .and_then(|r| r);
+        let ops: Vec<&str> = hist.iter().map(|s| s["op"].as_str().unwrap()).collect();
+        match res {
+            Err(msg) => out.line(&json!({"id": n, "status": "violation", "mismatch": [{"class": "failed", "what": "an operation of the history failed", "ops": ops, "observed": msg}]})),
+            Ok(seen) => {
+                let mut bad = Vec::new();
+                let mut judged = 0;
+                for (k, (step, got)) in hist.iter().zip(seen.iter()).enumerate() {
+                    let (Some(got), obs) = (got, &step["obs"]) else { continue };
+                    if obs["poisoned"].as_bool() != Some(false) {
+                        continue;
+                    }
+                    judged += 1;
+                    let want = [util::rat(&obs["util"]), util::rat(&obs["r1"]), util::rat(&obs["r2"]), util::rat(&obs["total"])];
+                    if got.iter().zip(want.iter()).any(|(a, b)| !util::close(*a, *b, 1e-11)) {
+                        bad.push(json!({"class": "history", "what": "an evaluation does not describe the current state of the object", "step": k + 1, "ops": ops,
+                            "observed": got.to_vec(), "specified": want.to_vec()}));
+                    }
+                }
+                if bad.is_empty() {
+                    out.line(&json!({"id": n, "status": "ok", "nontrivial": judged >= 1}));
+                } else {
+                    out.line(&json!({"id": n, "status": "violation", "mismatch": bad}));
+                }
+            }
+        }
+    }
+}
